@@ -439,24 +439,59 @@ def r2_namesakes(rule, root=None):
             rule.bad("binary|%s|order" % b, "Context::%s(%s) builds the node with operands (%s)" % (name, ", ".join(params[:2]), ", ".join(map(str, args))), A.where(fn, fb))
         else:
             rule.ok("Context::%s builds BinaryOpcode::%s(%s)" % (name, b, ", ".join(args)), file=CTX, line=fb["ln"])
-    # folding goes through the opcode's own eval, operands in order
-    fn = cfn("op_unary", root)
-    t = A.ftxt(fn["body"])
-    if "self.constant(op.eval(a.0))" in t and "self.ops.insert(Op::Unary(op,a))" in t:
-        rule.ok("op_unary folds constants with op.eval and otherwise interns Op::Unary(op, a)")
-    else:
-        rule.bad("op_unary", "op_unary must fold with `op.eval(a.0)` and intern `Op::Unary(op, a)`", A.where(fn))
-    fn = cfn("op_binary", root)
-    t = A.ftxt(fn["body"])
-    if "self.constant(op.eval(a.0,b.0))" in t and "self.ops.insert(Op::Binary(op,a,b))" in t and "if(let(Op::Const(a),Op::Const(b))=(op_a,op_b))" in t.replace("iflet", "if(let").replace("=(op_a,op_b)", "=(op_a,op_b))"):
-        rule.ok("op_binary folds constants with op.eval(a, b) and otherwise interns Op::Binary(op, a, b)")
-    elif "self.constant(op.eval(a.0,b.0))" in t and "self.ops.insert(Op::Binary(op,a,b))" in t:
-        rule.ok("op_binary folds constants with op.eval(a, b) and otherwise interns Op::Binary(op, a, b)")
-    else:
-        rule.bad("op_binary", "op_binary must fold with `op.eval(a.0, b.0)` and intern `Op::Binary(op, a, b)` in operand order", A.where(fn))
+    # folding goes through the opcode's own eval, operands in order (however the constant test is written)
+    def op_of(fn_, e):
+        """which parameter's Op does `e` denote (`*self.get_op(p).ok_or(BadNode)?` possibly through a local)"""
+        e = A.strip(e)
+        if A.ident(e):
+            lets = [s_ for s_ in A.find(fn_["body"], "Let") if A.binding_name(s_["pat"]) == A.ident(e) and s_.get("init") is not None]
+            if len(lets) == 1:
+                e = A.strip(lets[0]["init"])
+        for c in A.find(e, "MethodCall"):
+            if c["method"] == "get_op" and len(c["args"]) == 1:
+                return A.ident(A.strip(c["args"][0]))
+        return None
+
+    def const_bindings(fn_, ctx):
+        """{parameter: name bound to its constant payload} from the patterns on the way to a leaf"""
+        out = {}
+        for pat, scr in ctx:
+            pats = pat["elems"] if pat.get("k") == "PTuple" else [pat]
+            scrs = A.strip(scr)["elems"] if A.strip(scr).get("k") == "Tuple" else [scr]
+            for p_, s_ in zip(pats, scrs):
+                segs, subs = A.pat_variant(p_) if p_.get("k") == "PTupleStruct" else (None, None)
+                if segs and segs[-2:] == ["Op", "Const"] and subs:
+                    out[op_of(fn_, s_)] = A.binding_name(subs[0])
+        return out
+
+    for fname, nargs, ctor in (("op_unary", 1, "Unary"), ("op_binary", 2, "Binary")):
+        fn = cfn(fname, root)
+        params = [A.binding_name(i_["pat"]) for i_ in fn["sig"]["inputs"] if isinstance(i_, dict) and "pat" in i_]
+        vals = []
+        for s_ in A.find(fn["body"], "Let"):
+            if s_.get("init") is not None and A.strip(s_["init"]).get("k") in ("If", "Match"):
+                vals = A.branch_leaves(s_["init"])
+        if not vals:
+            tail = A.stmt_expr(fn["body"]["stmts"][-1])
+            vals = A.branch_leaves(tail) if tail else []
+        fold = intern = False
+        for leaf, ctx in vals:
+            lt = str(A.ftxt(leaf))
+            cb = const_bindings(fn, ctx)
+            if lt.startswith("self.constant(op.eval("):
+                want = "self.constant(op.eval(%s))" % ",".join("%s.0" % cb.get(p) for p in params[:nargs])
+                fold = fold or lt == want
+            if lt == "self.ops.insert(Op::%s(op,%s))" % (ctor, ",".join(params[:nargs])):
+                intern = True
+        if fold and intern:
+            rule.ok("%s folds constants with op.eval (operands in order) and otherwise interns Op::%s(op, ..)" % (fname, ctor))
+        else:
+            rule.bad(fname, "%s must fold with `op.eval(%s)` on its operands' constants in order and intern `Op::%s(op, %s)`" % (fname, ", ".join("%s.0" % p for p in params[:nargs]), ctor, ", ".join(params[:nargs])), A.where(fn))
     fn = cfn("op_binary_commutative", root)
-    t = A.ftxt(fn["body"])
-    if t == "{self.op_binary(a.min(b),a.max(b),op)}":
+    tl = A.unblock(A.inline_lets_deep(fn["body"]))
+    params = [A.binding_name(i_["pat"]) for i_ in fn["sig"]["inputs"] if isinstance(i_, dict) and "pat" in i_]
+    a_, b_ = params[0], params[1]
+    if str(A.ftxt(tl)) in ("self.op_binary(%s.min(%s),%s.max(%s),op)" % (a_, b_, a_, b_), "self.op_binary(%s.min(%s),%s.max(%s),op)" % (b_, a_, b_, a_)):
         rule.ok("op_binary_commutative orders operands canonically (min, max)")
     else:
         rule.bad("op_binary_commutative", "op_binary_commutative must be op_binary(a.min(b), a.max(b), op)", A.where(fn))
@@ -600,7 +635,8 @@ def r6_tree_eq_hash_drop(rule, root=None):
         else:
             rule.ok("hash visits every node unconditionally", file=TREE, line=hs["ln"])
         t = A.ftxt(body)
-        if "std::mem::discriminant(t).hash(state)" in t and "todo.extend(t.iter_children().map(|t|t.as_ref()))" in t:
+        mt = t.fmatch("std::mem::discriminant($T).hash(state)")
+        if mt is not None and t.fmatch("todo.extend($T.iter_children().map(|$C|$C.as_ref()))", bind=mt) is not None:
             rule.ok("hash mixes the variant tag and walks iter_children")
         else:
             rule.bad("hash|walk", "Hash for TreeOp must hash the discriminant and walk iter_children()", A.where(hs))
@@ -618,11 +654,15 @@ def r6_tree_eq_hash_drop(rule, root=None):
             names = [n for n in A.pat_names(arm["pat"]) if not n.startswith("_")]
             w = want_hash.get(variant, "?")
             # rename the single binding to the expected one
-            g2 = got
+            g2 = str(A.ftxt(A.unblock(arm["body"])))
             if len(names) == 1:
                 for cand in ("i", "v", "op", "mat"):
                     if cand in w:
-                        g2 = got.replace(names[0], cand)
+                        g2 = g2.replace(names[0], cand)
+            if variant == "RemapAffine":
+                bt_ = A.ftxt(arm["body"])
+                if bt_.fmatch("%s.matrix().iter().for_each(|$F|OrderedFloat(*$F).hash(state))" % (names[0] if names else "mat")) is not None or bt_.fmatch("for$Fin%s.matrix().iter(){OrderedFloat(*$F).hash(state);}" % (names[0] if names else "mat")) is not None:
+                    g2 = w
             if g2 == w:
                 rule.ok("hash(TreeOp::%s) covers its payload" % variant, file=TREE, line=arm["ln"])
             else:
@@ -687,7 +727,7 @@ def r6_tree_eq_hash_drop(rule, root=None):
                 rule.bad("eq|%s|missing" % v, "eq has no arm for a pair of TreeOp::%s" % v, A.where(eq))
                 continue
             arm = seen[v]
-            g = A.ftxt(arm["body"])
+            g = A.ftxt(A.inline_lets_deep(arm["body"]))
             names = first_bindings(arm)
             st = A.stmts_of(arm["body"])
             if v == "RemapAxes":
@@ -695,7 +735,7 @@ def r6_tree_eq_hash_drop(rule, root=None):
             elif v == "RemapAffine":
                 ok = (
                     None not in names
-                    and "%s.matrix().iter().zip(%s.matrix().iter()).any(|(a,b)|(OrderedFloat(*a)!=OrderedFloat(*b)))" % tuple(names) in g
+                    and g.fmatch("%s.matrix().iter().zip(%s.matrix().iter()).any(|($P,$Q)|(OrderedFloat(*$P)!=OrderedFloat(*$Q)))" % tuple(names)) is not None
                     and "returnfalse" in g
                 )
             else:
@@ -712,7 +752,7 @@ def r6_tree_eq_hash_drop(rule, root=None):
             else:
                 rule.bad("eq|%s" % v, "eq for TreeOp::%s is `%s`" % (v, g[:80]), A.where(eq))
         t = A.ftxt(eq["body"])
-        if "todo.extend(a.iter_children().zip(b.iter_children()).map(|(a,b)|(a.as_ref(),b.as_ref())))" in t:
+        if t.fmatch("todo.extend(a.iter_children().zip(b.iter_children()).map(|($P,$Q)|($P.as_ref(),$Q.as_ref())))") is not None:
             rule.ok("eq recurses over iter_children pairwise on the heap")
         else:
             rule.bad("eq|walk", "eq must walk both trees' iter_children() pairwise", A.where(eq))
@@ -758,8 +798,16 @@ def r6_tree_eq_hash_drop(rule, root=None):
     # Drop: iterative
     dr = _tree_impl_fn("Drop", "drop", root)
     t = A.ftxt(dr["body"])
-    need = ["ifself.eligible_for_fast_drop(){return;}", "fortint.iter_children_mut()", "todo.extend(Arc::into_inner(arg))", "std::mem::replace(t,empty.clone())"]
-    miss = [n for n in need if n not in t]
+    md = t.fmatch("for$Cin$T.iter_children_mut(){") if hasattr(t, "fmatch") else None
+    need = ["ifself.eligible_for_fast_drop(){return;}", "for$Cin$T.iter_children_mut(){", "todo.extend(Arc::into_inner($A))", "let$A=std::mem::replace($C,empty.clone());"]
+    miss = []
+    bnd = {}
+    for n in need:
+        r_ = t.fmatch(n, bind=bnd) if "$" in n else ({} if n in t else None)
+        if r_ is None:
+            miss.append(n)
+        else:
+            bnd.update(r_)
     if miss:
         rule.bad("drop|loop", "Drop for TreeOp must dismantle children on a heap work-list (missing %s)" % miss, A.where(dr))
     else:
